@@ -318,18 +318,31 @@ int alloc_main(const vf::Args &a)
     size_t      n;
     while ((n = fread(buf, 1, sizeof buf, f)) > 0) s.append(buf, n);
     fclose(f);
-    size_t      p  = s.find("\"scenario\":\"");
-    std::string nm = p == std::string::npos ? "" : s.substr(p + 12, s.find('"', p + 12) - p - 12);
-    p              = s.find("\"fail_at\":");
-    uint64_t fa    = p == std::string::npos ? 0 : (uint64_t)atoll(s.c_str() + p + 10);
+    // the replay file is re-serialised by the driver (spaces after colons are possible)
+    auto after = [&](const char *field) -> size_t {
+      size_t q = s.find(std::string("\"") + field + "\"");
+      if (q == std::string::npos) return q;
+      q = s.find(':', q);
+      if (q == std::string::npos) return q;
+      q++;
+      while (q < s.size() && (s[q] == ' ' || s[q] == '\t')) q++;
+      return q;
+    };
+    size_t      p  = after("scenario");
+    std::string nm = (p == std::string::npos || s[p] != '"') ? "" : s.substr(p + 1, s.find('"', p + 1) - p - 1);
+    p              = after("fail_at");
+    uint64_t fa    = p == std::string::npos ? 0 : (uint64_t)atoll(s.c_str() + p);
     for (auto &sc : scenarios(false))
       if (sc.name == nm) {
         RunResult r = run_scenario(sc, reqs, fa, true);
         for (auto &l : r.log) printf("  %s\n", l.c_str());
         int bad = 0;
         for (auto &v : r.viols) {
-          printf("VIOLATED %s: %s\n", v.key.c_str(), v.desc.c_str());
-          bad = 1;
+          // same selection as the check itself
+          bool counts = !(v.key.rfind("C10:interest:", 0) == 0) &&
+                        (v.key.rfind("C14:", 0) == 0 || v.key.rfind("C01:", 0) == 0 || v.key.rfind("C10:", 0) == 0 || v.key.rfind("C07:", 0) == 0);
+          printf("%s %s: %s\n", counts ? "VIOLATED" : "(not part of C14)", v.key.c_str(), v.desc.c_str());
+          if (counts) bad = 1;
         }
         if (!bad) printf("property held on this case (allocation %llu of scenario %s failing)\n", (unsigned long long)fa, nm.c_str());
         return bad;
@@ -383,6 +396,9 @@ int alloc_main(const vf::Args &a)
         // key: oracle + scenario kind (without the configuration suffix)
         std::string kind = sc.name.substr(0, sc.name.find('/'));
         std::string key  = v.key;
+        // which sockets the application is told to watch after an allocation failed is not part of the statement of C14
+        // (no crash, no corruption, no leak, one callback, usable and destroyable): the C10 interest rules are not applied
+        if (key.rfind("C10:interest:", 0) == 0) continue;
         if (key.rfind("C01:", 0) == 0 || key.rfind("C10:", 0) == 0 || key.rfind("C07:", 0) == 0) key = "C14:" + key.substr(4);
         if (key.rfind("C14:", 0) != 0) continue;
         if (key.find(":leak:") != std::string::npos) {
